@@ -6,6 +6,14 @@ HERE = os.path.dirname(os.path.dirname(os.path.abspath(__file__)))
 TECH = "bounded symbolic execution of the real Go code (go/ssa -> SMT-LIB bit-vectors), z3 decides every assertion/panic/branch; counterexamples replayed natively"
 
 CHECKS = {
+ "C10": dict(
+   text="Sequential clauses of C10 only: the real HostClient.Do / do / doNonNilReqResp / acquireConn / releaseConn / closeConn / decConnsCount run from SSA for every history of M calls against a scripted peer over every fault sequence (7 peer outcomes x GET/POST x context cancelled or not x MaxConns 1..2 x MaxConnDuration expired or not): the response returned belongs to the caller's request, the per-host count equals the open connections, never exceeds MaxConns and equals the idle list once the call returned, a connection carries a second request only after a clean exchange that did not ask to close, the pending-request gauge returns to zero, and a POST is sent at most once. Interleavings of concurrent callers, the waiter queue, real timeouts and timing bounds are not addressed.",
+   note="narrowed claim (DESIGN.md §4 C10): no scheduler and no real time in the encoding; the reaper goroutine is skipped",
+   ref="DESIGN.md §4 C10"),
+ "C20": dict(
+   text="Parser/evaluator kernel only: for every chain of up to K binary operators (all 13) over literal numeric operands (including 0, so NaN arises), with one optional parenthesised group and two spacings, the real parseExpr + sortPriority rotation + operator Run (executed from SSA, including Go's regexp lexers) yields the value a reference precedence-climbing evaluator computes with the documented table and left associativity; no panic. Field references, struct walking, nil/strings/len/regexp/in and the binding.Validate entry are reflect-based and not addressed.",
+   note="narrowed claim (DESIGN.md §4 C20): literals only, well-typed chains, K<=2 quick / 3 thorough; expressions are concrete choices (float arithmetic is kept out of the solver)",
+   ref="DESIGN.md §4 C20"),
  "C09": dict(
    text="Sequential recycling only: inside the real Serve keep-alive loop, request 1 is handled by a handler that applies a symbolic choice of one or two mutators (30 exported mutators of RequestContext/Request/Response/headers/URI, symbolic argument byte, optionally a recovered panic); request 2 is a fixed probe whose full observable state (about 40 getters, header/cookie/arg visits, flags) and response bytes are compared with those of a fresh connection using fresh objects; z3 is asked whether they can differ. A pooled body stream reused on another connection after a failed release is covered by ZZ_C14_H2. Cross-goroutine pool migration and data races are outside this technique.",
    note="mutator list and dump are hand-written (a field reachable only through an unlisted API is not covered); sync.Pool modelled as LIFO; Acquire/Release of stand-alone Request/Response/URI/Cookie/Args values covered when ZZ_C09_H2 is listed",
